@@ -636,7 +636,7 @@ fn numeric_shape(cx: &mut Ctx) {
         cx.fail(rule, &format!("{}/leading-zero", rule), &lx.loc(f), "the leading-zero check is missing or altered");
     }
     match lr::lexer_method(&lx, "lex_number_radix") {
-        Some(r) if sm::tsx(&r.block).contains("BigInt::from_str_radix(&value_text,radix).map_err(|e|LexicalError{error:LexicalErrorType::OtherError(format!(\"{e:?}\")),location:start_pos})?") => cx.ok(rule, "radix literal: from_str_radix error (incl. empty digit run) mapped to a LexicalError at start_pos"),
+        Some(r) if radix_error_mapped(&sm::tsc(&r.block)) => cx.ok(rule, "radix literal: from_str_radix error (incl. empty digit run) mapped to a LexicalError at start_pos"),
         Some(r) => cx.fail(rule, &format!("{}/radix-error", rule), &lx.loc(r), "lex_number_radix does not map the big-integer parse error to a LexicalError at the literal's start"),
         None => cx.anchor_missing(rule, "lex_number_radix"),
     }
@@ -739,3 +739,15 @@ fn error_kind_mapping(cx: &mut Ctx, g: &Grammar) {
 
 #[allow(dead_code)]
 fn _u(_: &Src) {}
+
+
+/// `let T = self.radix_run(radix); .. BigInt::from_str_radix(&T, radix).map_err(|E| LexicalError { error: OtherError(<E formatted>), location: start_pos })?`
+/// whatever the locals T and E are called.
+fn radix_error_mapped(t: &str) -> bool {
+    let Some(c) = regex::Regex::new(r"let(\w+)=self\.radix_run\(radix\);").unwrap().captures(t) else { return false };
+    let text = regex::escape(&c[1]);
+    let Some(c2) = regex::Regex::new(&format!(r"BigInt::from_str_radix\(&{},radix\)\.map_err\(\|(\w+)\|", text)).unwrap().captures(t) else { return false };
+    let e = regex::escape(&c2[1]);
+    let re = format!(r#"BigInt::from_str_radix\(&{text},radix\)\.map_err\(\|{e}\|LexicalError\{{error:LexicalErrorType::OtherError\(format!\("\{{(?:{e}:\?\}}"|:\?\}}",{e})\)\),location:start_pos\}}\)\?"#, text = text, e = e);
+    regex::Regex::new(&re).map_or(false, |r| r.is_match(t))
+}
